@@ -43,9 +43,13 @@ CLAIMED["C05"] = dict(
          "Commit publishes exactly once (idempotent), Rollback before a commit gives back the pin on the current snapshot and the "
          "prepared next snapshot exactly once each and after a commit touches no reference count, and Release/reset gives back the "
          "pin taken at creation exactly when the transition was committed. This is the 'released once, and only by its holder' half "
-         "of the property, for every state of the transition object.",
+         "of the property, for every state of the transition object. For the measure engine's own snapshots: snapshot.incRef / "
+         "partWrapper.incRef add exactly one reference, tsTable.currentSnapshot returns the published snapshot with exactly one "
+         "more reference, and snapshot.decRef leaves every part untouched while other holders remain and releases every part of "
+         "the snapshot exactly once when the last holder leaves (loop invariant over the part list).",
     note=COMMON_NOTE + "Assumed: the Snapshot.IncRef/DecRef and Manager.ReplaceSnapshot interface contracts as documented in the "
-         "package. Narrow claim: measure/stream/trace/sidx snapshot and partWrapper reference counting, the introducer loops and the "
+         "package; partWrapper.decRef (goroutine). Sequential semantics (no interleavings). Narrow claim: stream/trace/sidx snapshot "
+         "reference counting, snapshot.merge/remove/copyAllTo (maps not modelled), the introducer loops and the "
          "publication fence are not decided (channels, goroutines and proto-typed packages); Transaction (slices of closures) is not "
          "yet under contract.",
     technique="contract-based deductive verification with ghost reference counts: VCs from the typed Go AST (govc), call-by-contract on "
@@ -242,6 +246,26 @@ CLAIMED["C03"] = dict(
     technique="contract-based deductive verification: VCs from the typed Go AST (govc), quantified postconditions and frames over "
               "parallel column slices; obligations discharged by z3/cvc5",
     design="§3 C03")
+
+CLAIMED["C19"] = dict(
+    text="Proof (sequential semantics, every path incl. all error paths) of the pinning discipline of file snapshots: "
+         "storage segment.snapshotInto skips a segment flagged for deletion, hands a closed segment (index == nil) to the "
+         "hard-link copy only while it is closed and leaves its index nil and its reference count untouched ('never reopens or "
+         "disturbs closed segments'), hands an open segment to the live copy only while it holds an extra reference and with the "
+         "index captured under the lock, and gives that reference back exactly once; database.TakeFileSnapshot reopens no "
+         "segment and leaves no segment pinned, whatever snapshotInto returns; measure tsTable.TakeFileSnapshot pins the current "
+         "snapshot before the first part is linked, writes the manifest of exactly that pinned snapshot while still pinned, gives "
+         "the pin back exactly once on every path, and removes the destination on failure (ghost flag on MustRMAll) but never on "
+         "success; snapshot.decRef releases every part exactly once when (and only when) the last holder leaves.",
+    note=STORAGE_NOTE + "Also assumed: CreateHardLink/SyncPath/CreateFile, createMetadata (manifest I/O), the series-index and "
+         "shard-table snapshot calls inside snapshotOpen, partWrapper.decRef (spawns a goroutine). Narrow claim, said plainly: that "
+         "the copy OPENS as a valid database and answers as one snapshot state (recovery code, bluge), that every part listed in "
+         "the manifest is present (the manifest also lists in-memory parts that are not linked; the loader intersects with the "
+         "directories present), hard-link semantics, interleavings with flush/merge/retention, and the stream/trace/sidx twins of "
+         "TakeFileSnapshot (same shape, not put under contract) are NOT decided.",
+    technique="contract-based deductive verification with ghost state and caller-side at-call assertions: VCs from the typed Go AST "
+              "(govc) incl. deferred closures over named results; obligations discharged by z3/cvc5",
+    design="§3 C19, §7.2")
 
 NOT_APPLICABLE = {
     "C15": "equivalence of two whole query pipelines over generated proto types: translation validation, no function contract states it (DESIGN.md §5)",
